@@ -59,17 +59,17 @@ type hist struct {
 	ops      []string
 	thorough bool
 
-	phase   int
-	pending []int // shards whose index is still to be flushed in this cycle
-	cur     int   // shard whose index is prepared
+	phase       int
+	pending     []int // shards whose index is still to be flushed in this cycle
+	cur         int   // shard whose index is prepared
 	metaPrepSeq int
 	idxPrepSeq  []int
 	dur         durable
 
-	inFlush    string // "meta" / "idx<i>" while a Flush call is in flight
+	inFlush                      string // "meta" / "idx<i>" while a Flush call is in flight
 	pointsInFlush, copiesInFlush int
-	nestBudget int
-	imgDur     map[int]durable // by crash.Point.Seq
+	nestBudget                   int
+	imgDur                       map[int]durable // by crash.Point.Seq
 
 	fresh   int
 	classes map[string]int
